@@ -74,8 +74,14 @@ Print Assumptions C02_not_retyped_first_type.
 
 (* ... and under `conv_faithful` (what C05 must provide for the builtin: every lexical form is accepted by the
    bound Python type and written back XSD-equal) every lexical form survives the round trip as the same value.
-   PARTIAL: conv_faithful is an explicit hypothesis; it is discharged from C05's theorems below for xs:boolean
-   and xs:string only; integers, decimal, float/double, dates, binary types are NOT discharged here. *)
+   PARTIAL: conv_faithful is an explicit hypothesis.  It is discharged from C05's theorems, in terms of
+   Spec/XsdVal.v's own canon functions, for xs:boolean and xs:string (below).  For the xs:integer family, xs:decimal,
+   xs:hexBinary, xs:base64Binary, xs:date, xs:time and xs:dateTime its content (every lexical form accepted, written
+   back as a lexical form of the same value) is established by citation of C05 / C06 at the END of this file, stated
+   over the generative lexical spaces of Spec/XsdPrims.v / Spec/XsdDates.v under C05's / C06's guards; the bridge from
+   those specifications to Spec/XsdVal.v's canon functions is NOT proved.  Not discharged at all: float/double
+   (C05's float theorems are parametric in the float model), duration and the g* types (C06 proves acceptance only),
+   QName / anyURI / the token family beyond xs:string. *)
 Theorem C02_not_retyped_atomic_partial :
   forall (V : Type) (conv : pytype -> str -> option V) (ser : V -> option str -> option str) b ws f py fmt,
   type_compat (STAtom b None ws) f = true -> expected_py b = Some (py, fmt) ->
@@ -146,3 +152,83 @@ Example C02_example_meta_equiv :
   meta_equiv ex_meta ex_meta = true /\ meta_equiv ex_meta ex_meta_small = false.
 Proof. exact ex_meta_equiv. Qed.
 Print Assumptions C02_example_meta_equiv.
+
+(* ======================= not retyped: further types by citation of C05 / C06 ======================= *)
+(* Every lexical form of the XSD type (Spec/XsdPrims.v, Spec/XsdDates.v: the generative lexical spaces C05 / C06 are
+   proved against), with XML white space around it, is accepted by the Python type the schema type is bound to
+   (`expected_py`), and what the converter writes back is again a lexical form of that type denoting the same value,
+   which reads back to the same Python value.  Guards are C05's / C06's (digit limits, finite year widths, real
+   calendar values).  These statements are NOT instances of `conv_faithful` as typed: they speak about
+   Spec/XsdPrims.v / Spec/XsdDates.v, not about Spec/XsdVal.v's canon functions. *)
+From XV Require Import Base.Dec Base.PyInt Gen.ConvTables Model.ConvInt Model.ConvBytes Model.ConvDecimal Model.ConvGuards
+  Model.Dates Model.DatesCorr Spec.XsdDates Proofs.DatesParse Proofs.DatesFormat.
+
+Theorem C02_not_retyped_integer : forall i a b,
+  wf_integer i = true -> int_sp_in_limit i = true ->
+  forallb xml_ws a = true -> forallb xml_ws b = true ->
+  (int_ndigits (val_integer i) <= int_max_str_digits)%N ->
+  exists out i', int_deser (a ++ lex_integer i ++ b) = Some (val_integer i)
+    /\ int_ser (val_integer i) = Some out
+    /\ wf_integer i' = true /\ lex_integer i' = out /\ val_integer i' = val_integer i
+    /\ int_deser out = Some (val_integer i).
+Proof. exact not_retyped_integer. Qed.
+Print Assumptions C02_not_retyped_integer.
+
+Theorem C02_not_retyped_decimal : forall d a b,
+  wf_decimal d = true -> dec_sp_fits d = true ->
+  forallb xml_ws a = true -> forallb xml_ws b = true ->
+  let v := val_decimal d in
+  let py := DFin (dn_neg v) (dn_coeff v) (dn_exp v) in
+  exists d', dec_deser (a ++ lex_decimal d ++ b) = Some py
+    /\ wf_decimal d' = true /\ lex_decimal d' = dec_ser py
+    /\ decnum_eq (val_decimal d') (mk_decnum (dn_neg v) (dn_coeff v) (dn_exp v)) = true.
+Proof. exact not_retyped_decimal. Qed.
+Print Assumptions C02_not_retyped_decimal.
+
+Theorem C02_not_retyped_hexBinary : forall k core v a b,
+  xsd_hexBinary core = Some v -> bytes_ok v = true ->
+  forallb xml_ws a = true -> forallb xml_ws b = true ->
+  exists out, bytes_deser (Some bytes_fmt_base16) (a ++ core ++ b) = Some v
+    /\ bytes_ser k (Some bytes_fmt_base16) v = Some out /\ xsd_hexBinary out = Some v.
+Proof. exact not_retyped_hexBinary. Qed.
+Print Assumptions C02_not_retyped_hexBinary.
+
+Theorem C02_not_retyped_base64Binary : forall s v,
+  xsd_base64Binary s = Some v -> bytes_ok v = true ->
+  exists out, bytes_deser (Some bytes_fmt_base64) s = Some v
+    /\ bytes_ser BPlain (Some bytes_fmt_base64) v = Some out /\ xsd_base64Binary out = Some v.
+Proof. exact not_retyped_base64Binary. Qed.
+Print Assumptions C02_not_retyped_base64Binary.
+
+Theorem C02_not_retyped_date : forall sp a b,
+  wf_date sp = true -> year_len_ok (ds_year sp) ->
+  forallb xml_ws a = true -> forallb xml_ws b = true ->
+  let v := mk_xdate (val_year (ds_year sp)) (ds_month sp) (ds_day sp) (val_tz (ds_tz sp)) in
+  valid_date_value v = true -> year_fits (d_year v) ->
+  date_from_string (a ++ lex_date sp ++ b) = Some v
+  /\ date_str v = lex_date (canon_date v) /\ wf_date (canon_date v) = true
+  /\ date_from_string (date_str v) = Some v.
+Proof. exact not_retyped_date. Qed.
+Print Assumptions C02_not_retyped_date.
+
+Theorem C02_not_retyped_time : forall sp a b,
+  wf_time sp = true -> forallb xml_ws a = true -> forallb xml_ws b = true ->
+  let v := mk_xtime (ts_hour sp) (ts_minute sp) (ts_second sp) (val_frac (ts_frac sp)) (val_tz (ts_tz sp)) in
+  valid_time_value v = true ->
+  time_from_string (a ++ lex_time sp ++ b) = Some v
+  /\ time_str v = lex_time (canon_time v) /\ wf_time (canon_time v) = true
+  /\ time_from_string (time_str v) = Some v.
+Proof. exact not_retyped_time. Qed.
+Print Assumptions C02_not_retyped_time.
+
+Theorem C02_not_retyped_dateTime : forall sp a b,
+  wf_datetime sp = true -> year_len_ok (dts_year sp) ->
+  forallb xml_ws a = true -> forallb xml_ws b = true ->
+  let v := mk_xdatetime (val_year (dts_year sp)) (dts_month sp) (dts_day sp)
+             (dts_hour sp) (dts_minute sp) (dts_second sp) (val_frac (dts_frac sp)) (val_tz (dts_tz sp)) in
+  valid_datetime_value v = true -> year_fits (dt_year v) ->
+  datetime_from_string (a ++ lex_datetime sp ++ b) = Some v
+  /\ datetime_str v = lex_datetime (canon_datetime v) /\ wf_datetime (canon_datetime v) = true
+  /\ datetime_from_string (datetime_str v) = Some v.
+Proof. exact not_retyped_dateTime. Qed.
+Print Assumptions C02_not_retyped_dateTime.
